@@ -19,6 +19,7 @@ structure Inv (s : St) : Prop where
   out : ∀ (m : Nat) (g : Sig), s.sigs[m]? = some g → g.inCtx = false → g.state = .stopped ∨ g.state = .zombie
   names : ∀ (m n : Nat) (g h : Sig), s.sigs[m]? = some g → s.sigs[n]? = some h → g.inCtx = true → h.inCtx = true →
     g.name = h.name → m = n
+  fresh : (∀ (m : Nat) (g : Sig), s.sigs[m]? = some g → g.ctxId < s.nextCtx) ∧ (∀ c, s.ctx = some c → c.id < s.nextCtx)
 
 def Mono (a s : St) : Prop :=
   ∀ (m : Nat) (g : Sig), a.sigs[m]? = some g → ∃ g' : Sig, s.sigs[m]? = some g' ∧ (g.inCtx = false → g'.inCtx = false) ∧
@@ -34,8 +35,9 @@ theorem Mono.trans {a b c : St} (h1 : Mono a b) (h2 : Mono b c) : Mono a c := by
   exact ⟨g2, e2, fun h => i2 (i1 h), fun h => z2 (z1 h), by rw [n2, n1], by rw [c2, c1], by rw [k2, k1], by rw [f2, f1],
     by rw [s2, s1]⟩
 
-theorem Inv.congr {s s' : St} (h1 : s'.sigs = s.sigs) (h2 : s'.ctx = s.ctx) (h : Inv s) : Inv s' :=
-  ⟨fun c hc => by rw [h1]; exact h.run c (by rw [← h2]; exact hc), by rw [h1]; exact h.out, by rw [h1]; exact h.names⟩
+theorem Inv.congr {s s' : St} (h1 : s'.sigs = s.sigs) (h2 : s'.ctx = s.ctx) (h3 : s'.nextCtx = s.nextCtx) (h : Inv s) : Inv s' :=
+  ⟨fun c hc => by rw [h1]; exact h.run c (by rw [← h2]; exact hc), by rw [h1]; exact h.out, by rw [h1]; exact h.names,
+   by rw [h1, h2, h3]; exact h.fresh⟩
 
 theorem Mono.congr_right {a s s' : St} (h1 : s'.sigs = s.sigs) (h : Mono a s) : Mono a s' := by
   unfold Mono; rw [h1]; exact h
@@ -46,14 +48,15 @@ theorem Mono.congr_left {a a' s : St} (h1 : a'.sigs = a.sigs) (h : Mono a s) : M
 theorem frameable : Frameable Inv Mono where
   refl := Mono.refl
   trans := fun _ _ _ => Mono.trans
-  emitI := fun s o h => Inv.congr (s := s) (s' := s.emit o) rfl rfl h
+  emitI := fun s o h => Inv.congr (s := s) (s' := s.emit o) rfl rfl rfl h
   emitM := fun a s o h => Mono.congr_right (s := s) (s' := s.emit o) rfl h
   emitM' := fun s o b h => Mono.congr_left (a := s.emit o) (a' := s) rfl h
-  errnoI := fun s e h => Inv.congr (s := s) (s' := { s with errno := e }) rfl rfl h
+  errnoI := fun s e h => Inv.congr (s := s) (s' := { s with errno := e }) rfl rfl rfl h
   errnoM := fun a s e h => Mono.congr_right (s := s) (s' := { s with errno := e }) rfl h
 
 theorem inv_init : Inv {} := by
-  refine ⟨fun c h => by simp at h, fun m g h => by simp [St.sigs] at h, fun m n g h hg => by simp [St.sigs] at hg⟩
+  refine ⟨fun c h => by simp at h, fun m g h => by simp [St.sigs] at h, fun m n g h hg => by simp [St.sigs] at hg,
+    fun m g h => by simp [St.sigs] at h, fun c h => by simp at h⟩
 
 /-! ## Effect of the non-quiet primitives on the view -/
 
@@ -72,6 +75,12 @@ theorem setState_sigs (s : St) (m : ModId) (x : MState) :
 @[simp] theorem setState_deadCtx (s : St) (m x) : (setState s m x).deadCtx = s.deadCtx := by
   unfold setState; split <;> rfl
 
+@[simp] theorem setState_nextCtx (s : St) (m x) : (setState s m x).nextCtx = s.nextCtx := by
+  unfold setState; split <;> rfl
+@[simp] theorem updCtxId_nextCtx (s : St) (id f) : (s.updCtxId id f).nextCtx = s.nextCtx := by
+  unfold St.updCtxId; split
+  · split <;> rfl
+  · rfl
 @[simp] theorem updCtxId_sigs (s : St) (id f) : (s.updCtxId id f).sigs = s.sigs := by
   unfold St.updCtxId; split
   · split <;> rfl
@@ -88,7 +97,23 @@ theorem updCtxId_ctx (s : St) (id f) :
 
 /-- changing only `curr_mod` of some context object keeps the invariant -/
 theorem Inv.setCurrOf {s : St} (m x) (h : Inv s) : Inv (setCurrOf m x s) := by
-  refine ⟨fun c hc => ?_, by simpa using h.out, by simpa using h.names⟩
+  have hfresh : (∀ (k : Nat) (g : Sig), (Lm.Core.setCurrOf m x s).sigs[k]? = some g → g.ctxId < (Lm.Core.setCurrOf m x s).nextCtx) ∧
+      (∀ c : Ctx, (Lm.Core.setCurrOf m x s).ctx = some c → c.id < (Lm.Core.setCurrOf m x s).nextCtx) := by
+    have hn : (Lm.Core.setCurrOf m x s).nextCtx = s.nextCtx := by unfold Lm.Core.setCurrOf; simp
+    rw [hn, setCurrOf_sigs]
+    refine ⟨h.fresh.1, fun c hc => ?_⟩
+    unfold Lm.Core.setCurrOf at hc
+    rw [updCtxId_ctx] at hc
+    cases hcx : s.ctx with
+    | none => simp [hcx] at hc
+    | some c0 =>
+      rw [hcx] at hc
+      by_cases hid : (c0.id == s.ctxIdOf m) = true
+      · simp only [hid, if_true, Option.some.injEq] at hc
+        subst hc; exact h.fresh.2 c0 hcx
+      · simp only [hid, Bool.false_eq_true, if_false, Option.some.injEq] at hc
+        subst hc; exact h.fresh.2 c0 hcx
+  refine ⟨fun c hc => ?_, by simpa using h.out, by simpa using h.names, hfresh⟩
   simp only [setCurrOf_sigs]
   unfold Lm.Core.setCurrOf at hc
   rw [updCtxId_ctx] at hc
@@ -140,9 +165,20 @@ theorem getElem?_set_sig (l : List Sig) (m k : Nat) (g' : Sig) (h : m < l.length
 theorem inv_set (s s' : St) (m : ModId) (g g' : Sig) (hI : Inv s) (hg : s.sigs[m]? = some g)
     (hs : s'.sigs = s.sigs.set m g') (hname : g'.name = g.name) (hin : g'.inCtx = true → g.inCtx = true)
     (hout : g'.inCtx = false → g'.state = .stopped ∨ g'.state = .zombie)
-    (hrun : ∀ c, s'.ctx = some c → c.running = runCount (s.sigs.set m g') c.id) : Inv s' := by
+    (hrun : ∀ c, s'.ctx = some c → c.running = runCount (s.sigs.set m g') c.id)
+    (hcid : g'.ctxId = g.ctxId) (hnext : s'.nextCtx = s.nextCtx) (hctxid : ∀ c, s'.ctx = some c → ∃ c0, s.ctx = some c0 ∧ c0.id = c.id) :
+    Inv s' := by
   have hlt : m < s.sigs.length := (List.getElem?_eq_some_iff.mp hg).1
-  refine ⟨fun c hc => by rw [hs]; exact hrun c hc, ?_, ?_⟩
+  refine ⟨fun c hc => by rw [hs]; exact hrun c hc, ?_, ?_, ?_⟩
+  rotate_left 2
+  · rw [hs, hnext]
+    refine ⟨fun k g1 hk => ?_, fun c hc => ?_⟩
+    · rw [getElem?_set_sig _ _ _ _ hlt] at hk
+      by_cases hmk : m = k
+      · simp [hmk] at hk; subst hk; rw [hcid]; exact hI.fresh.1 m g hg
+      · simp [hmk] at hk; exact hI.fresh.1 k g1 hk
+    · obtain ⟨c0, h0, hid⟩ := hctxid c hc
+      rw [← hid]; exact hI.fresh.2 c0 h0
   · rw [hs]
     intro k g1 hk hi
     rw [getElem?_set_sig _ _ _ _ hlt] at hk
@@ -160,6 +196,19 @@ theorem inv_set (s s' : St) (m : ModId) (g g' : Sig) (hI : Inv s) (hg : s.sigs[m
       rw [← hmn]; exact hI.names k m g1 g hk hg h1 (hin h2) (by rw [hnm, hname])
     · simp [hmk] at hk; simp [hmn] at hn
       exact hI.names k n g1 g2 hk hn h1 h2 hnm
+
+theorem updCtxId_ctx_id (s : St) (id : Nat) (f : Ctx → Ctx) (c : Ctx)
+    (hc : (s.updCtxId id f).ctx = some c) (hf : ∀ c0, (f c0).id = c0.id) : ∃ c0, s.ctx = some c0 ∧ c0.id = c.id := by
+  rw [updCtxId_ctx] at hc
+  cases hcx : s.ctx with
+  | none => simp [hcx] at hc
+  | some c0 =>
+    rw [hcx] at hc
+    by_cases hid : (c0.id == id) = true
+    · simp only [hid, if_true, Option.some.injEq] at hc
+      subst hc; exact ⟨c0, rfl, (hf c0).symm⟩
+    · simp only [hid, Bool.false_eq_true, if_false, Option.some.injEq] at hc
+      subst hc; exact ⟨c0, rfl, rfl⟩
 
 theorem updMod_leave_sigs (s : St) (m : ModId) :
     (s.updMod m fun x => { x with inCtx := false }).sigs =
@@ -195,11 +244,24 @@ theorem stopStep_ctx (s : St) (m : ModId) (x : MState) (leave : Bool) :
   unfold stopStep
   cases leave <;> simp
 
+theorem stopStep_nextCtx (s : St) (m : ModId) (x : MState) (leave : Bool) : (stopStep s m x leave).nextCtx = s.nextCtx := by
+  unfold stopStep
+  cases leave <;> by_cases hr : stateIs s m .running = true <;> simp [hr]
+
 /-- the module leaves RUNNING/… for STOPPED or PAUSED (and possibly the table), its context's counter follows -/
 theorem inv_stop (s : St) (m : ModId) (g : Sig) (x : MState) (leave : Bool) (hI : Inv s) (hg : s.sigs[m]? = some g)
     (hx : x = .stopped ∨ (x = .paused ∧ g.inCtx = true ∧ leave = false)) : Inv (stopStep s m x leave) := by
   have hxr : x ≠ .running := by rcases hx with h | ⟨h, _⟩ <;> (rw [h]; decide)
-  refine inv_set s _ m g (g.stopped x leave) hI hg (stopStep_sigs s m g x leave hg) rfl ?_ ?_ ?_
+  refine inv_set s _ m g (g.stopped x leave) hI hg (stopStep_sigs s m g x leave hg) rfl ?_ ?_ ?_ rfl
+    (stopStep_nextCtx s m x leave) ?_
+  rotate_left 3
+  · intro c hc
+    rw [stopStep_ctx] at hc
+    by_cases hr : stateIs s m .running = true
+    · simp only [hr, if_true] at hc
+      exact updCtxId_ctx_id s _ _ c hc (fun _ => rfl)
+    · simp only [hr] at hc
+      exact ⟨c, hc, rfl⟩
   · intro h; cases leave <;> simp [Sig.stopped] at h ⊢; exact h
   · intro h
     rcases hx with hx | ⟨_, hin, hl⟩
@@ -252,7 +314,10 @@ theorem inv_start (s : St) (m : ModId) (g : Sig) (hI : Inv s) (hg : s.sigs[m]? =
   have hsig : (setState (s.updCtxId g.ctxId fun c => { c with running := c.running + 1 }) m .running).sigs
       = s.sigs.set m (g.setState .running) := by
     rw [setState_sigs]; simp [hg]
-  refine inv_set s _ m g (g.setState .running) hI hg hsig rfl (fun _ => hin) (fun h => by simp [Sig.setState, hin] at h) ?_
+  refine inv_set s _ m g (g.setState .running) hI hg hsig rfl (fun _ => hin) (fun h => by simp [Sig.setState, hin] at h) ?_ rfl
+    (by simp) (fun c hc => by
+      simp only [setState_ctx] at hc
+      exact updCtxId_ctx_id s _ _ c hc (fun _ => rfl))
   intro c hc
   simp only [setState_ctx] at hc
   rw [updCtxId_ctx] at hc
@@ -287,7 +352,8 @@ theorem inv_zombie (s : St) (m : ModId) (g : Sig) (hI : Inv s) (hg : s.sigs[m]? 
     Inv (setState s m .zombie) := by
   have hsig : (setState s m .zombie).sigs = s.sigs.set m (g.setState .zombie) := by
     rw [setState_sigs]; simp [hg]
-  refine inv_set s _ m g (g.setState .zombie) hI hg hsig rfl (fun h => h) (fun _ => Or.inr rfl) ?_
+  refine inv_set s _ m g (g.setState .zombie) hI hg hsig rfl (fun h => h) (fun _ => Or.inr rfl) ?_ rfl
+    (by simp) (fun c hc => ⟨c, by simpa using hc, rfl⟩)
   intro c hc
   simp only [setState_ctx] at hc
   have h0 := hI.run c hc
@@ -312,5 +378,128 @@ theorem Mono_set (a s s' : St) (m : ModId) (g g' : Sig) (hM : Mono a s) (hg : s.
     exact ⟨g', by simp, fun h => h1 (i1 h), fun h => h2 (z1 h), by rw [h3, n1], by rw [h4, c1], by rw [h5, k1],
       by rw [h6, f1], by rw [h7, s1]⟩
   · exact ⟨g1, by simp [hmk, e1], i1, z1, n1, c1, k1, f1, s1⟩
+
+
+@[simp] theorem updCtx_sigs (s : St) (f) : (s.updCtx f).sigs = s.sigs := by
+  unfold St.updCtx; split <;> rfl
+@[simp] theorem updCtx_nextCtx (s : St) (f) : (s.updCtx f).nextCtx = s.nextCtx := by
+  unfold St.updCtx; split <;> rfl
+
+theorem updCtx_ctx (s : St) (f) : (s.updCtx f).ctx = s.ctx.map f := by
+  unfold St.updCtx; cases h : s.ctx <;> simp [h]
+
+/-- a context update that touches neither the identity nor the running counter -/
+theorem inv_updCtx (s : St) (f : Ctx → Ctx) (hid : ∀ c, (f c).id = c.id) (hrun : ∀ c, (f c).running = c.running)
+    (hI : Inv s) : Inv (s.updCtx f) := by
+  refine ⟨fun c hc => ?_, by simpa using hI.out, by simpa using hI.names, ?_⟩
+  · rw [updCtx_ctx] at hc
+    cases hcx : s.ctx with
+    | none => simp [hcx] at hc
+    | some c0 =>
+      simp [hcx] at hc; subst hc
+      simp only [updCtx_sigs, hid, hrun]
+      exact hI.run c0 hcx
+  · simp only [updCtx_sigs, updCtx_nextCtx]
+    refine ⟨hI.fresh.1, fun c hc => ?_⟩
+    rw [updCtx_ctx] at hc
+    cases hcx : s.ctx with
+    | none => simp [hcx] at hc
+    | some c0 => simp [hcx] at hc; subst hc; rw [hid]; exact hI.fresh.2 c0 hcx
+
+/-- releasing the context -/
+theorem inv_ctx_none (s : St) (d : List Ctx) (hI : Inv s) : Inv { s with ctx := none, deadCtx := d } :=
+  ⟨fun c hc => by simp at hc, hI.out, hI.names, hI.fresh.1, fun c hc => by simp at hc⟩
+
+theorem runCount_fresh (l : List Sig) (id : Nat) (h : ∀ (m : Nat) (g : Sig), l[m]? = some g → g.ctxId < id) : runCount l id = 0 := by
+  unfold runCount
+  apply List.countP_eq_zero.mpr
+  intro g hg
+  obtain ⟨k, hk, hkg⟩ := List.getElem_of_mem hg
+  have := h k g (by simp [List.getElem?_eq_getElem hk, hkg])
+  simp
+  intro _ he
+  omega
+
+/-- a fresh context -/
+theorem inv_ctx_new (s : St) (c : Ctx) (hI : Inv s) (hid : c.id = s.nextCtx) (hr : c.running = 0) :
+    Inv { s with ctx := some c, nextCtx := s.nextCtx + 1 } := by
+  refine ⟨fun c' hc => ?_, hI.out, hI.names, fun m g hg => Nat.lt_succ_of_lt (hI.fresh.1 m g hg), fun c' hc => ?_⟩
+  · simp at hc; subst hc
+    show c.running = runCount s.sigs c.id
+    rw [hr, hid, runCount_fresh s.sigs s.nextCtx hI.fresh.1]
+  · simp at hc; subst hc
+    show c.id < s.nextCtx + 1
+    omega
+
+theorem sigs_append (s : St) (md : Mod) : ({ s with mods := s.mods ++ [md] } : St).sigs = s.sigs ++ [md.sig] := by
+  simp [St.sigs]
+
+/-- a new IDLE module whose name is free -/
+theorem inv_append (s : St) (md : Mod) (c : Ctx) (hI : Inv s) (hc : s.ctx = some c) (hst : md.state = .idle) (hin : md.inCtx = true)
+    (hcid : md.ctxId = c.id) (hfree : ∀ (k : Nat) (g : Sig), s.sigs[k]? = some g → g.inCtx = true → g.name ≠ md.name) :
+    Inv { s with mods := s.mods ++ [md] } := by
+  have hs := sigs_append s md
+  have hget : ∀ k, (s.sigs ++ [md.sig])[k]? = if k < s.sigs.length then s.sigs[k]? else if k = s.sigs.length then some md.sig else none := by
+    intro k
+    by_cases h1 : k < s.sigs.length
+    · simp [h1, List.getElem?_append_left h1]
+    · by_cases h2 : k = s.sigs.length
+      · subst h2; simp
+      · simp only [h1, h2, if_false]
+        apply List.getElem?_eq_none
+        simp; omega
+  refine ⟨fun c' hc' => ?_, ?_, ?_, ?_⟩
+  · rw [hs]
+    have : c' = c := by
+      have : s.ctx = some c' := hc'
+      rw [hc] at this; exact (Option.some.inj this).symm
+    subst this
+    unfold runCount
+    rw [List.countP_append]
+    have := hI.run c' hc
+    unfold runCount at this
+    simp [Mod.sig, hst, this]
+  · rw [hs]
+    intro k g hk hi
+    rw [hget] at hk
+    by_cases h1 : k < s.sigs.length
+    · simp only [h1, if_true] at hk; exact hI.out k g hk hi
+    · by_cases h2 : k = s.sigs.length
+      · simp [h2] at hk; subst hk; simp [Mod.sig, hin] at hi
+      · simp [h1, h2] at hk
+  · rw [hs]
+    intro k n g1 g2 hk hn h1 h2 hname
+    rw [hget] at hk hn
+    by_cases a1 : k < s.sigs.length <;> by_cases b1 : n < s.sigs.length
+    · simp only [a1, if_true] at hk; simp only [b1, if_true] at hn; exact hI.names k n g1 g2 hk hn h1 h2 hname
+    · by_cases b2 : n = s.sigs.length
+      · simp only [a1, if_true] at hk; simp [b2] at hn; subst hn
+        exact absurd hname (hfree k g1 hk h1)
+      · simp [b1, b2] at hn
+    · by_cases a2 : k = s.sigs.length
+      · simp [a2] at hk; simp only [b1, if_true] at hn; subst hk
+        exact absurd hname.symm (hfree n g2 hn h2)
+      · simp [a1, a2] at hk
+    · by_cases a2 : k = s.sigs.length <;> by_cases b2 : n = s.sigs.length
+      · omega
+      · simp [b1, b2] at hn
+      · simp [a1, a2] at hk
+      · simp [a1, a2] at hk
+  · rw [hs]
+    refine ⟨fun k g hk => ?_, fun c' hc' => hI.fresh.2 c' hc'⟩
+    rw [hget] at hk
+    by_cases h1 : k < s.sigs.length
+    · simp only [h1, if_true] at hk; exact hI.fresh.1 k g hk
+    · by_cases h2 : k = s.sigs.length
+      · simp [h2] at hk; subst hk; simp [Mod.sig, hcid]; exact hI.fresh.2 c hc
+      · simp [h1, h2] at hk
+
+theorem Mono_append (a s : St) (md : Mod) (h : Mono a s) : Mono a { s with mods := s.mods ++ [md] } := by
+  intro k g hk
+  obtain ⟨g', e, r⟩ := h k g hk
+  refine ⟨g', ?_, r⟩
+  rw [sigs_append]
+  have hlt : k < s.sigs.length := (List.getElem?_eq_some_iff.mp e).1
+  rw [List.getElem?_append_left hlt]; exact e
 
 end Lm.Core
